@@ -97,7 +97,9 @@ func NEA1(ck [16]byte, countC, bearer, direction uint32, ibs []byte, length uint
 	ks := make([]uint32, l)
 	snow3g.GenerateKeystream(int(l), ks)
 	// Clear keystream bits which exceed length
-	ks[l-1] &= ^((1 << (32 - r)) - 1)
+	if r != 0 {
+		ks[l-1] &= ^((1 << (32 - r)) - 1)
+	}
 
 	obs = make([]byte, len(ibs))
 	var i uint32
